@@ -147,8 +147,9 @@ class PDLInterpFunctions(InterpreterFunctions):
         assert len(args) == 1
         assert isinstance(args[0], Operation)
         src_op = args[0]
-        assert isinstance(src_op, IRDLOperation)
         if op.index is not None:
+            # Result groups are only known for IRDL-defined operations
+            assert isinstance(src_op, IRDLOperation)
             # get the field name of the result group:
             if op.index.value.data >= len(src_op.get_irdl_definition().results):
                 return (None,)
